@@ -363,8 +363,8 @@ def r12_4(prog, out):
         for br in a.select.branches:
             if br.fut_ty == A.ty("Deleted") and br.cont_bb is not None:
                 labels = const_walk(li, br.cont_bb, lambda bb: "again" if bb == a.poll_bb else None)
-                if labels == {"return"}:
-                    ok = True
+                if "return" in labels and "again" not in labels and "unknown" not in labels:
+                    ok = True           # (a drain loop on the way out may also contain a panicking edge: `diverge`)
     if ok:
         out.holds(key, prog.loc(actor.loop), "the actor's outer select ends the task on the deletion signal, closing the mailbox")
     else:
@@ -463,3 +463,66 @@ def r12_7(prog, out):
             n += 1
     if n == 0:
         raise CheckBroken("the delete request is never built")
+
+
+def _r12_8(prog, out):
+    """A request travels in two steps: `sender.send(request).await`, then `reply.await`.  tokio's `Receiver::drop` closes the
+    channel and empties it *once*; a sender that was admitted (holds a permit) just before the close can still put its request
+    in just after that.  The request -- and the reply sender inside it -- then lies in a channel nobody reads, and it is only
+    dropped when the last `Sender` is: but the caller that waits for the reply holds one itself (through its `Arc` of the
+    handle).  It waits for ever.  So an actor task that *ends while handles to its mailbox can still exist* (it stops on a
+    deletion signal, not on `recv() == None`) must close the mailbox and keep receiving until `recv()` yields `None` -- which
+    tokio returns only when the channel is closed and no permit is outstanding.  Instances: one per actor."""
+    from common import await_class
+    A = prog.anchors
+    for actor in prog.actors:
+        li = prog.info(actor.loop)
+        key = "mailbox-drained:%s" % short_ty(actor.ty)
+        recvs = [a for a in li.awaits if await_class(prog, li, a) == "mpsc_recv" or
+                 (a.select is not None and any("tokio::sync::mpsc" in (br.fut_ty or "") and "recv" in (br.fut_ty or "").lower() for br in a.select.branches))]
+        # ways out of the task that are not `the mailbox said None`
+        early = []
+        for a in li.awaits:
+            if a.select is None:
+                continue
+            for br in a.select.branches:
+                if "tokio::sync::mpsc" in (br.fut_ty or ""):
+                    continue
+                if br.cont_bb is None:
+                    continue
+                labels = const_walk(li, br.cont_bb, lambda bb, a=a: "again" if bb == a.poll_bb else None)
+                if "return" in labels and "again" not in labels:
+                    early.append((a, br))
+        if not early:
+            out.holds(key, prog.loc(actor.loop), "the actor task only ends when its mailbox reports that no sender is left", nontrivial=False)
+            continue
+        closes = {bb for bb, t in li.calls(lambda c: c.path.startswith("tokio::sync::mpsc") and c.path.endswith("::close"))}
+        bad = None
+        for a, br in early:
+            if not closes or li.cfg.escapes(br.cont_bb, closes, after=False) is not None:
+                bad = (a, br, "without closing the mailbox and receiving what is still on its way")
+                continue
+            # after the close: a receive loop that ends on None
+            drains = [x for x in li.awaits if await_class(prog, li, x) == "mpsc_recv" and any(li.cfg.can_reach(c, x.poll_bb) for c in closes)
+                      and x.poll_bb in {b for blocks in li.cfg.loops().values() for b in blocks}]
+            if not drains:
+                bad = (a, br, "after `close()` it does not keep receiving until the mailbox reports `None`")
+        if bad:
+            a, br, why = bad
+            out.violation(key, li.loc(br.cont_bb), "the %s task ends on %s %s: a request admitted to the mailbox just before it closes is put in just after the receiver "
+                          "emptied it for the last time, lies there with its reply sender while any handle exists -- and the caller waiting for that reply holds a "
+                          "handle itself, so it waits for ever" % (short_ty(actor.ty), short_ty(br.fut_ty or "?"), why),
+                          ["exit branch at %s" % li.loc(a.poll_bb), "requests are sent in two steps (send, then wait for the reply) by the handle methods"])
+        else:
+            out.holds(key, li.loc(sorted(closes)[0]), "on its way out the actor closes the mailbox and receives until `None`: every request that still gets in is dropped, "
+                      "so its sender is told `Closed`")
+
+
+@rule("C12", "R12.8", "an actor that stops while handles to its mailbox exist closes the mailbox and drains it (no request is stranded)", floor=2)
+def r12_8_c12(prog, out):
+    _r12_8(prog, out)
+
+
+@rule("C07", "R12.8", "an actor that stops while handles to its mailbox exist closes the mailbox and drains it (no request is stranded)", floor=2)
+def r12_8_c07(prog, out):
+    _r12_8(prog, out)
